@@ -212,8 +212,12 @@ def rec(ctx, kind, e, site="value"):
             ctx.draw(st.integers(0, fp)) == 0:
         # a planted failure: logs its tag, then raises
         pool = CAUGHT_CLS + UNCAUGHT_CLS
+        if ctx.opts.get("fail_classes"):
+            pool = pool + ["FileNotFoundError", "TimeoutError", "OSError",
+                           "ArithmeticError", "NotImplementedError"]
         if ctx.draw(st.integers(0, 11)) == 0:
-            pool = ["KeyboardInterrupt", "SystemExit", "RecursionError"]
+            pool = ["KeyboardInterrupt", "SystemExit", "RecursionError",
+                    "GeneratorExit"]
         return ["boom", ctx.draw(st.sampled_from(pool)), ctx.newtag(kind)]
     if ctx.opts.get("tales") and ctx.draw(st.integers(0, 2)) != 0 and \
             e[0] not in ("default", "nothing"):
